@@ -371,6 +371,7 @@ func (txn *Txn) insert(fn func(Row) error, expireAt int64) (uint32, error) {
 
 	// At a new index, add the insertion marker
 	idx := txn.owner.next()
+	verifYield("i:reserved")
 	txn.bufferFor(rowColumn).PutOperation(commit.Insert, idx)
 
 	// If there was an error during insertion, free the index so it can be re-used
@@ -449,6 +450,7 @@ func (txn *Txn) InsertKey(key string, fn func(Row) error) error {
 	}
 
 	// If not found, insert at a new index
+	verifYield("k:checked")
 	idx, err := txn.insert(fn, 0)
 	txn.bufferFor(txn.owner.pk.name).PutString(commit.Put, idx, key)
 	return err
@@ -465,6 +467,7 @@ func (txn *Txn) UpsertKey(key string, fn func(Row) error) error {
 	}
 
 	// If not found, insert at a new index
+	verifYield("k:checked")
 	idx, err := txn.insert(fn, 0)
 	txn.bufferFor(txn.owner.pk.name).PutString(commit.Put, idx, key)
 	return err
@@ -543,6 +546,7 @@ func (txn *Txn) commit() {
 		}
 
 		// If there is a pending snapshot, append commit into a temp log
+		verifYield("w:applied")
 		if dst, ok := txn.owner.isSnapshotting(); ok {
 			dst.Append(commit.Commit{
 				ID:      commitID,
